@@ -195,6 +195,10 @@ func init() {
 	profiles["C09"] = &profile{
 		config: func(r *RNG, thorough bool) *RunConfig {
 			cfg := baseConfig("C09", r, thorough)
+			if rl := NewRNG(Mix(r.U64(), 0x6c6f7765)); rl.Bool(0.15) {
+				// peers files that spell some keys in lower case with a 0x prefix
+				cfg.LowerKeys = true
+			}
 			if ra := NewRNG(Mix(r.U64(), 0x6173796e)); ra.Bool(0.3) {
 				// overlapping gossips of one node (legs held back, lock gaps)
 				cfg.PAsync = 0.1 + 0.3*ra.Float()
@@ -250,6 +254,10 @@ func init() {
 	profiles["C10"] = &profile{
 		config: func(r *RNG, thorough bool) *RunConfig {
 			cfg := baseConfig("C10", r, thorough)
+			if rl := NewRNG(Mix(r.U64(), 0x6c6f7765)); rl.Bool(0.15) {
+				// peers files that spell some keys in lower case with a 0x prefix
+				cfg.LowerKeys = true
+			}
 			if ra := NewRNG(Mix(r.U64(), 0x6173796e)); ra.Bool(0.3) {
 				// overlapping gossips of one node (legs held back, lock gaps)
 				cfg.PAsync = 0.1 + 0.3*ra.Float()
@@ -567,6 +575,10 @@ func init() {
 	profiles["C13"] = &profile{
 		config: func(r *RNG, thorough bool) *RunConfig {
 			cfg := baseConfig("C13", r, thorough)
+			if rl := NewRNG(Mix(r.U64(), 0x6c6f7765)); rl.Bool(0.15) {
+				// peers files that spell some keys in lower case with a 0x prefix
+				cfg.LowerKeys = true
+			}
 			cfg.N0 = []int{2, 3, 3, 4, 4, 5}[r.Intn(6)]
 			cfg.Stores = make([]string, cfg.N0)
 			for i := range cfg.Stores {
